@@ -40,7 +40,14 @@ CODES = [-70401, -70402, -70403, -70404, -70405, -70406, -70407, -70408, -70409,
 
 def gen_plan(seed: int, tier: str) -> dict:
     r = random.Random(seed)
-    transport = "ip"
+    transport = r.choice(["ip"] * 6 + ["coap"] * 2 + ["ble"] * 2)
+    if transport != "ip":
+        n = r.choice([1, 2, 3, 4])
+        reqs = []
+        for _ in range(r.randint(2, 5)):
+            kind = r.choice(["get", "put", "put"])
+            reqs.append({"kind": kind, "pick": r.sample(range(8), n), "status": [r.choice([0, 0, 0, r.choice([1, 2, 3, 4, 5, 6])]) for _ in range(n)]})
+        return {"transport": transport, "reqs": reqs, "ops": list(range(len(reqs)))}
     reqs = []
     for _ in range(r.randint(3, 8)):
         kind = r.choice(["get", "put", "put"])
@@ -72,7 +79,9 @@ def gen_plan(seed: int, tier: str) -> dict:
 def execute(plan: dict, ch: Chooser) -> dict:
     if plan["transport"] == "ip":
         return execute_ip(plan, ch)
-    raise ValueError(plan["transport"])
+    if plan["transport"] == "coap":
+        return execute_coap(plan, ch)
+    return execute_ble(plan, ch)
 
 
 def _garble(kind, gseed, entries: list, statuses: dict) -> list:
@@ -215,3 +224,215 @@ def execute_ip(plan: dict, ch: Chooser) -> dict:
         w.finish()
     sample = {"transport": "ip", "reqs": [(q["kind"], q["ids"], q["status"], q["garble"], q.get("global")) for q in plan["reqs"]][:5]}
     return result_of(ctx, nontrivial=nontrivial, sim_time=loop.time(), sample=sample, units=len(plan["ops"]))
+
+
+def _newval(c):
+    if c.fmt == "bool":
+        return not c.value
+    if c.fmt == "string":
+        return str(c.value) + "x"
+    if c.fmt == "data":
+        return "0c0d"
+    if c.fmt == "float":
+        return float(c.value) + 1.0
+    return c.value + 1
+
+
+def execute_coap(plan: dict, ch: Chooser) -> dict:
+    from worlds import coap as wcoap
+
+    ctx = Ctx(ch)
+    from simkit import seams
+
+    seams.begin(ctx)
+    loop = SimLoop(max_iterations=200_000)
+    ctx.loop = loop
+    acc, rec = wcoap.standard_accessory(ch)
+    wcoap.CoapWorld(ctx, loop, acc)
+    nontrivial = False
+
+    async def main():
+        nonlocal nontrivial
+        p = wcoap.make_pairing(rec)
+        await p.list_accessories_and_characteristics()
+        notes: list = []
+        p.dispatcher_connect(lambda ev: notes.append(dict(ev)))
+        pool = [c for c in acc.all_chars() if c.iid >= 0x100 + 50]
+        for idx in plan["ops"]:
+            req = plan["reqs"][idx]
+            chars = [pool[i % len(pool)] for i in req["pick"]]
+            st = req["status"]
+            armed = {"on": True}
+
+            def item_plan(i, opcode, iid, st=st, armed=armed):
+                if armed["on"] and i < len(st) and st[i]:
+                    return {"status": st[i]}
+                return None
+
+            acc.item_plan = item_plan
+            notes.clear()
+            applied0 = len(acc.writes_applied)
+            before = {c.iid: c.value for c in chars}
+            ctx.obligations += 1
+            nontrivial = nontrivial or len(set(bool(x) for x in st)) > 1
+            try:
+                if req["kind"] == "get":
+                    res = await p.get_characteristics([(1, c.iid) for c in chars])
+                else:
+                    res = await p.put_characteristics([(1, c.iid, _newval(c)) for c in chars])
+            except Exception as e:  # noqa: BLE001
+                ctx.violate(f"{req['kind']}-raises", f"coap/{type(e).__name__}", f"coap {req['kind']} with statuses {st} raised {e!r}")
+                return
+            finally:
+                armed["on"] = False
+            ctx.event("coap-req", idx, req["kind"], st)
+            if req["kind"] == "get":
+                for c, s_ in zip(chars, st):
+                    got = res.get((1, c.iid))
+                    err = s_ or ("pr" not in c.perms)
+                    if err:
+                        if got is None or not got.get("status"):
+                            ctx.violate("get-status", "coap", f"coap get: iid {c.iid} failed on the accessory (status {s_}, perms {c.perms}) but reported {got}")
+                    elif got is None or got.get("value") != before[c.iid]:
+                        ctx.violate("get-value", "coap", f"coap get: iid {c.iid} accessory value {before[c.iid]!r}, reported {got}")
+            else:
+                applied = {iid for iid, _ in acc.writes_applied[applied0:]}
+                for c in chars:
+                    got = res.get((1, c.iid))
+                    if c.iid not in applied and (got is None or not got.get("status")):
+                        ctx.violate("put-rejected-presented-as-written", "coap", f"coap put: iid {c.iid} (perms {c.perms}) was rejected but reported {got}")
+                    if c.iid in applied and got is not None and got.get("status"):
+                        ctx.violate("put-accepted-reported-failed", "coap", f"coap put: iid {c.iid} was applied but reported {got}")
+                notified = set()
+                for ev in notes:
+                    notified |= {k[1] for k in ev}
+                want = {c.iid for c in chars if c.iid in applied and "pr" in c.perms}
+                if notified != want:
+                    ctx.violate("put-listener-notifications", "coap/" + ("missing" if want - notified else "extra"),
+                                f"coap put statuses {st}: accessory accepted {sorted(applied)} (readable {sorted(want)}), listeners notified for {sorted(notified)}")
+            ctx.state("coap", req["kind"], tuple(bool(x) for x in st))
+
+    try:
+        loop.run_sim(main())
+    except SimDeadlock as e:
+        ctx.violate("deadlock", "coap", str(e))
+    finally:
+        seams.end()
+    return result_of(ctx, nontrivial=nontrivial, sim_time=loop.time(), sample={"transport": "coap", "reqs": plan["reqs"][:4]}, units=len(plan["ops"]))
+
+
+def execute_ble(plan: dict, ch: Chooser) -> dict:
+    import bleak  # noqa: F401
+
+    from refimpl import ble_accessory as ba
+    from refimpl import crypto as RC
+    from refimpl import hap
+    from simkit import seams
+    from worlds import ble as wble
+    from worlds import disc
+
+    ctx = Ctx(ch)
+    seams.begin(ctx)
+    seams.install_ble()
+    disc.install()
+    wble.install()
+    loop = SimLoop(max_iterations=400_000)
+    ctx.loop = loop
+    ident = hap.AccessoryIdentity("aa:bb:cc:dd:ee:13", ch.nbytes("ltsk", 32))
+    ios_ltsk = ch.nbytes("ios", 32)
+    fmts = ["bool", "uint8", "int", "float", "string", "uint16", "uint32", "data"]
+    chars = []
+    for k in range(8):
+        perms = ("pr", "pw", "ev") if k % 4 != 3 else (("pw",) if k == 3 else ("pr", "ev"))
+        if k == 5:
+            perms = ("pr", "pw", "tw")
+        val = {"bool": True, "uint8": 10, "int": 100, "float": 0.5, "string": "s", "uint16": 300, "uint32": 70000, "data": "0a0b"}[fmts[k]]
+        chars.append(ba.GChar(f"000002{0xA0 + k:02X}" + ba.BASE, 50 + k, fmts[k], perms=perms, value=val))
+    svc = ba.GService("00000043" + ba.BASE, 48, chars)
+    acc = ba.BleAccessory(ident, {"ios-1": RC.ed_pub(ios_ltsk)}, ba.standard_services([svc]), eph=lambda w, n: ch.nbytes("acc." + w, n))
+    wble.SimLink(ctx, "00:11:22:33:44:13", acc, {"mtu": 247})
+    acc.frag_size = 244
+    nontrivial = False
+
+    async def main():
+        nonlocal nontrivial
+        from aiohomekit.characteristic_cache import CharacteristicCacheMemory
+        from aiohomekit.controller.ble.controller import BleController
+
+        c = BleController(char_cache=CharacteristicCacheMemory())
+        await c.async_start()
+        dev, adv = disc.ble_objects("00:11:22:33:44:13", "SimBLE", {76: disc.regular_advert("aa:bb:cc:dd:ee:13", gsn=1, cn=1)})
+        c._device_detected(dev, adv)
+        rec = {"AccessoryPairingID": "aa:bb:cc:dd:ee:13", "AccessoryLTPK": ident.ltpk.hex(), "iOSPairingId": "ios-1", "iOSDeviceLTSK": ios_ltsk.hex(),
+               "iOSDeviceLTPK": RC.ed_pub(ios_ltsk).hex(), "Connection": "BLE", "AccessoryAddress": "00:11:22:33:44:13"}
+        p = c.load_pairing("alias", rec)
+        await p.list_accessories_and_characteristics()
+        notes: list = []
+        p.dispatcher_connect(lambda ev: notes.append(dict(ev)))
+        for idx in plan["ops"]:
+            req = plan["reqs"][idx]
+            cs = [chars[i % len(chars)] for i in req["pick"]]
+            st = req["status"]
+            acc.status_plan = {((ba.OP_READ if req["kind"] == "get" else ba.OP_WRITE), c_.iid): s_ for c_, s_ in zip(cs, st) if s_}
+            for c_, s_ in zip(cs, st):
+                if s_ and "tw" in c_.perms:
+                    acc.status_plan[(ba.OP_TIMED_WRITE, c_.iid)] = s_
+            notes.clear()
+            applied0 = len(acc.writes_applied)
+            before = {c_.iid: c_.value for c_ in cs}
+            ctx.obligations += 1
+            nontrivial = nontrivial or len(set(bool(x) for x in st)) > 1
+            res, exc = None, None
+            try:
+                if req["kind"] == "get":
+                    res = await p.get_characteristics([(1, c_.iid) for c_ in cs])
+                else:
+                    res = await p.put_characteristics([(1, c_.iid, _newval(c_)) for c_ in cs])
+            except Exception as e:  # noqa: BLE001
+                exc = e
+            acc.status_plan = {}
+            ctx.event("ble-req", idx, req["kind"], st, type(exc).__name__ if exc else None)
+            applied = {iid for iid, _ in acc.writes_applied[applied0:]}
+            if req["kind"] == "get":
+                if exc is not None:
+                    ctx.violate("get-raises", f"ble/{type(exc).__name__}", f"ble get with statuses {st} raised {exc!r}")
+                    return
+                for c_, s_ in zip(cs, st):
+                    got = res.get((1, c_.iid))
+                    if s_ or "pr" not in c_.perms:
+                        if got is not None and "value" in got:
+                            ctx.violate("get-status", "ble", f"ble get: iid {c_.iid} failed on the accessory (status {s_}) but a value was reported: {got}")
+                        elif got is None:
+                            ctx.probe("ble_failed_read_omitted_from_result")
+                            if s_:
+                                ctx.violate("get-omitted", "ble", f"ble get: the accessory rejected the read of iid {c_.iid} with PDU status {s_}; the result {res} carries neither "
+                                                                  f"a value nor a status for it")
+                    elif got is None or got.get("value") != before[c_.iid]:
+                        if c_.fmt != "float":
+                            ctx.violate("get-value", "ble", f"ble get: iid {c_.iid} accessory value {before[c_.iid]!r}, reported {got}")
+            else:
+                for c_ in cs:
+                    got = (res or {}).get((1, c_.iid))
+                    if c_.iid not in applied and exc is None and (got is None or not got.get("status")):
+                        ctx.violate("put-rejected-presented-as-written", "ble", f"ble put: iid {c_.iid} (perms {c_.perms}) was not applied but the call returned {res} without raising")
+                    if c_.iid in applied and got is not None and got.get("status"):
+                        ctx.violate("put-accepted-reported-failed", "ble", f"ble put: iid {c_.iid} was applied but reported {got}")
+                notified = set()
+                for ev in notes:
+                    notified |= {k[1] for k in ev}
+                want = {c_.iid for c_ in cs if c_.iid in applied and "pr" in c_.perms}
+                if notified != want:
+                    ctx.violate("put-listener-notifications", "ble/" + ("missing" if want - notified else "extra"),
+                                f"ble put statuses {st}: accessory accepted {sorted(applied)} (readable {sorted(want)}), listeners notified for {sorted(notified)}; exception {exc!r}")
+                if exc is not None:
+                    ctx.probe("ble_put_raised_" + type(exc).__name__)
+            ctx.state("ble", req["kind"], tuple(bool(x) for x in st))
+        await p.shutdown()
+
+    try:
+        loop.run_sim(main())
+    except SimDeadlock as e:
+        ctx.violate("deadlock", "ble", str(e))
+    finally:
+        seams.end()
+    return result_of(ctx, nontrivial=nontrivial, sim_time=loop.time(), sample={"transport": "ble", "reqs": plan["reqs"][:4]}, units=len(plan["ops"]))
